@@ -268,9 +268,74 @@ def rule_p3(repo):
     return res
 
 
+def rule_p4(repo):
+    """The assignment rule is a substitution (P3), so the weakest precondition is as good as Expr.subst.
+    Substitution is a homomorphism: on a compound expression it rebuilds the same node over the
+    substituted parts, and it reaches every part that is an expression - the index of an array access as
+    much as the operands of an operator.  It never rewrites (cancelling `-(-e)` by operator name also turns
+    -(a - b) into a)."""
+    res = RuleResult('C20.P4', 'substitution on program expressions rebuilds the same node over all substituted sub-expressions', floor=6)
+    m = repo.module(EXPR)
+    base = repo.cls(EXPR, 'Expr')
+    for c in repo.subclasses_of(base):
+        if c.module.rel != EXPR:
+            continue
+        sub = c.methods.get('subst')
+        init = c.methods.get('__init__')
+        if sub is None or init is None:
+            continue
+        inst_p = sub.params()[1]
+        # expression-valued fields: parameters checked as Expr / [Expr] in typecheck.checkinstance(...)
+        fields = []
+        for call in ast.walk(init.node):
+            if isinstance(call, ast.Call) and call_name(call) == 'typecheck.checkinstance':
+                a = call.args[1:]
+                for v, t in zip(a[0::2], a[1::2]):
+                    if isinstance(v, ast.Name) and (is_name(t, 'Expr') or (isinstance(t, ast.List) and t.elts and is_name(t.elts[0], 'Expr'))):
+                        fields.append(v.id)
+        # the attribute each parameter is stored in
+        attr = {}
+        for n in ast.walk(init.node):
+            if isinstance(n, ast.Assign) and isinstance(n.targets[0], ast.Attribute) and is_name(n.targets[0].value, 'self'):
+                for x in ast.walk(n.value):
+                    if isinstance(x, ast.Name) and x.id in fields:
+                        attr[x.id] = n.targets[0].attr
+        efields = sorted(attr[f] for f in fields if f in attr)
+        rets = [r for r in ast.walk(sub.node) if isinstance(r, ast.Return) and r.value is not None]
+        locals_ = {}
+        for n in ast.walk(sub.node):
+            if isinstance(n, ast.Assign) and isinstance(n.targets[0], ast.Name):
+                locals_.setdefault(n.targets[0].id, []).append(n.value)
+        bad = []
+        for r in rets:
+            v = r.value
+            if not efields:
+                # a leaf: itself, or what the instantiation gives for it
+                if not (is_name(v, 'self') or (isinstance(v, ast.Subscript) and is_name(v.value, inst_p))):
+                    bad.append('line %d returns `%s`' % (r.lineno, src(v, 40)))
+                continue
+            if not (isinstance(v, ast.Call) and call_name(v) == c.name):
+                bad.append('line %d returns `%s`, not a %s node' % (r.lineno, src(v, 40), c.name))
+                continue
+            txt = src(v, 400)
+            for nm, vals in locals_.items():
+                if len(vals) == 1:
+                    txt = txt.replace('*' + nm, '*(' + src(vals[0], 300) + ')')
+            for fld in efields:
+                direct = 'self.%s.subst(%s)' % (fld, inst_p) in txt
+                mapped = ('.subst(%s) for' % inst_p) in txt and ('in self.%s' % fld) in txt
+                if not (direct or mapped):
+                    bad.append('line %d: the part `self.%s` is not substituted' % (r.lineno, fld))
+        res.add('%s :: %s.subst :: homomorphism' % (EXPR, c.name), not bad,
+                ('leaf' if not efields else 'rebuilds %s over the substituted %s' % (c.name, ', '.join(efields))) if not bad else
+                '; '.join(bad) + ' -- the precondition computed for an assignment is then not the postcondition with the variable replaced',
+                sub.loc)
+    return res
+
+
 def rules(repo):
     p1 = rule_p1(repo)
     if any(not i.ok for i in p1.instances):
         # with an ambiguous grammar there is no nesting for the printer's brackets to agree with
-        return [p1, rule_p3(repo)]
-    return [p1, rule_p2(repo), rule_p3(repo)]
+        return [p1, rule_p3(repo), rule_p4(repo)]
+    return [p1, rule_p2(repo), rule_p3(repo), rule_p4(repo)]
